@@ -6,6 +6,9 @@ import (
 	"encoding/json"
 	"fmt"
 	"strings"
+
+	"grol.io/grol/lexer"
+	"grol.io/grol/token"
 )
 
 func init() {
@@ -325,6 +328,72 @@ func checkC19(c *Ctx) {
 	}
 	c.Cov("register_bound_constant_programs", regBound)
 	c19Near(c)
+	c19Names(c)
+}
+
+// c19Names: which names are constants. ConstNames.tla classifies every name of up to 3 characters over an alphabet with
+// the ends of the letter and digit ranges ([A-Z][A-Z0-9_]*); every name that lexes as one identifier is bound and
+// attacked: the attacks fail and leave the value exactly for the names the model calls constant, registers on and off.
+func c19NameJudge(name, attack string, ai int, isConst bool, on, off []inObs) string {
+	switch {
+	case on[3] != off[3] || on[2].Err != off[2].Err:
+		return fmt.Sprintf("registers on: attack err=%v then %q, off: err=%v then %q", on[2].Err, on[3].Out, off[2].Err, off[3].Out)
+	case isConst && on[3].Out != "1\n":
+		return fmt.Sprintf("%s is a constant ([A-Z][A-Z0-9_]*) bound to 1; after %q it prints %q", name, attack, strings.TrimSpace(on[3].Out))
+	case isConst && !on[2].Err && ai < 4: // (as a loop variable or parameter name the constant may also simply keep its value)
+		return fmt.Sprintf("%s is a constant; %q did not fail", name, attack)
+	case !isConst && ai < 4 && (on[2].Err || on[3].Out != "2\n"):
+		return fmt.Sprintf("%s is not a constant (not [A-Z][A-Z0-9_]*); %q failed (%v) / left %q", name, attack, on[2].Err, strings.TrimSpace(on[3].Out))
+	}
+	return ""
+}
+
+func c19Names(c *Ctx) {
+	r, err := c.TLC(TLCOpt{Spec: "ConstNames", Cfg: "CONSTANTS\n EmitOn = TRUE\nINIT Init\nNEXT Next\nINVARIANT Sane\n", Workers: 1})
+	if err != nil {
+		c.Infra(err)
+		return
+	}
+	n, consts := 0, 0
+	err = ReadLines(r.Emitted, func(line []byte) error {
+		var g struct {
+			Name  string `json:"name"`
+			Const bool   `json:"const"`
+		}
+		if err := json.Unmarshal(line, &g); err != nil {
+			return err
+		}
+		l := lexer.New(g.Name)
+		if t := l.NextToken(); t.Type() != token.IDENT || t.Literal() != g.Name || l.NextToken().Type() != token.EOF {
+			return nil // not one identifier: not a name
+		}
+		for ai, attack := range []string{g.Name + " = 2", g.Name + " := 2", g.Name + "++", "func() {" + g.Name + " = 2}()", "for " + g.Name + " = 3:5 {}", "func(" + g.Name + ") {" + g.Name + "}(2)"} {
+			in := []string{g.Name + " = 1", "println(" + g.Name + ")", attack, "println(" + g.Name + ")"}
+			on, _ := runHistory(in, RunOpt{})
+			off, _ := runHistory(in, RunOpt{NoReg: true})
+			c.Case("name:"+strings.Join(in, "\n"), true)
+			n++
+			if on[1].Out != "1\n" || on[1].Err {
+				return fmt.Errorf("name %q could not be bound and printed: %q %q", g.Name, on[0].Val, on[1].Out)
+			}
+			msg := c19NameJudge(g.Name, attack, ai, g.Const, on, off)
+			if msg != "" {
+				c.Fail("constant-name-misclassified", msg, map[string]any{"check": "names", "inputs": in, "const": g.Const, "attack": ai, "name": g.Name})
+			} else {
+				c.AddTraces(1)
+			}
+		}
+		if g.Const {
+			consts++
+		}
+		return nil
+	})
+	if err != nil {
+		c.Infra(err)
+		return
+	}
+	c.Cov("name_attack_cases", n)
+	c.Cov("names_classified_constant", consts)
 }
 
 // c19Near: replacements that a lax "is it the same value" test lets through. The new value compares equal to the old one
@@ -446,6 +515,15 @@ func replayC19(rp map[string]any) (bool, string) {
 			return false, describeDiff(on, off, 1)
 		}
 		return true, "registers on/off agree (the in-run constancy judgement is only made by the check itself)"
+	}
+	if rp["check"] == "names" && len(in) == 4 {
+		ai, _ := rp["attack"].(float64)
+		isConst, _ := rp["const"].(bool)
+		name, _ := rp["name"].(string)
+		if msg := c19NameJudge(name, in[2], int(ai), isConst, on, off); msg != "" {
+			return false, msg
+		}
+		return true, ""
 	}
 	if rp["check"] == "near" {
 		if msg := c19NearJudge(in, on, off); msg != "" {
